@@ -15,7 +15,7 @@ META = {
             'switched on, and a call after a random prefix of other library calls (including calls that advance the default identifier '
             'generators) must give the same canonical result; (3) the canonical result (identical value for enumerators / acceptance / '
             'checker verdicts / named automata, bounded language fingerprint for regexps) is compared across 2-8 fresh processes with '
-            'different PYTHONHASHSEED; non-trivial = argument with >=2 states / rules; distinct by (operation, arguments)',
+            'different PYTHONHASHSEED; non-trivial = argument with >=2 states / rules; distinct by (operation, arguments); also related-object-first history (same rules, other start), counter DFAs, near-isomorphic DFA pairs, machines built by parse_tm (defaultdict tables) with raw-table snapshots',
     'assumptions': ['heap-level immutability is observed through canonical content and str(); CPython object identity is not modelled '
                     'outside Gamba/Model/Heap.lean'],
     'trusted_base': ['Lean: order-independence theorems c19_* and the alias frame theorems of Gamba/Props/C19.lean'],
